@@ -84,7 +84,7 @@ def confirm(wt, sid, prop):
     return 0
 
 
-SCRATCH = "/tmp/evalscratch"
+SCRATCH = os.environ.get("VERIF_SCRATCH", "/tmp/evalscratch")
 
 
 def scratch_env():
